@@ -264,7 +264,7 @@ def run(ctx: Context, R: Reporter):
 
 
 def variants():
-    from ..variants import Variant, alpha_rename, replace_expr, replace_stmt
+    from ..variants import Variant, alpha_rename, replace_expr, replace_stmt, set_keyword
 
     tl = "tempest/tools.py"
     rs = "tempest/steps/resample.py"
@@ -277,7 +277,7 @@ def variants():
         Variant("c-per-position-draw", "bad", replace_expr(tl, "systematic_resample", "np.random.random()", "np.random.random(size)"), ["C06.c"], quick=True),
         Variant("c-positions-no-offset-div", "bad", replace_expr(tl, "systematic_resample", "(np.random.random() + np.arange(size)) / size", "np.random.random() + np.arange(size) / size"), ["C06.c"]),
         Variant("d-p-uniform", "bad", replace_expr(rs, "Resampler.run", "np.random.choice(np.arange(len(weights)), size=self.n_particles, replace=True, p=weights)", "np.random.choice(np.arange(len(weights)), size=self.n_particles, replace=True, p=weights ** 2 / np.sum(weights ** 2))"), ["C06.d", "ANALYSIS-ERROR"]),
-        Variant("d-no-replace", "bad", replace_expr(rs, "Resampler.run", "replace=True", "replace=False"), ["C06.d"]),
+        Variant("d-no-replace", "bad", set_keyword(rs, "Resampler.run", "np.random.choice", "replace", "False"), ["C06.d"]),
         Variant("d-population-short", "bad", replace_expr(rs, "Resampler.run", "np.arange(len(weights))", "np.arange(self.n_particles)"), ["C06.d"], quick=True),
         Variant("benign-bound-form", "benign", replace_expr(tl, "systematic_resample", "j < len(weights) - 1", "j + 1 < len(weights)"), quick=True),
         Variant("benign-bound-local", "benign", replace_stmt(tl, "systematic_resample", "j = 0", "j = 0\nn_w = len(weights)")),
